@@ -12,7 +12,7 @@ TRUSTED = ['Lean 4.33 kernel', 'axioms: propext, Classical.choice, Quot.sound',
            'the loss of the table equals the estimator\'s loss on consistent marginals by C04.loss_each_once and linearity of marginalisation']
 ASSUMPTIONS = ['squared-error objective', 'full domain <= 400 cells so that the explicit table can be materialised']
 RULE = ('random domains (2-4 attributes, <= 200 cells), 1-4 measurements with overlapping / nested projections, identity / integer / prefix queries, noise 0.5-3, known or estimated total, '
-        'solvers MD / RDA / IG with an escalating iteration budget (250 -> 4000 quick, -> 16000 thorough); non-trivial = at least two measurements on different projections; distinct = distinct (problem, solver)')
+        'solvers MD / RDA / IG with an escalating iteration budget (250 -> 64000 quick, -> 256000 thorough, x4 per step, stopping at the first budget that certifies); non-trivial = at least two measurements on different projections; distinct = distinct (problem, solver)')
 EXPLANATION = ('P = model.datavector(); loss and Frank-Wolfe gap of P computed by the Lean model: L(P) - min over all nonnegative tables with that total <= gap (theorem). Violations: (a) the loss recomputed from the model\'s own '
                'answers lies below L(P) - gap, (b) the final loss exceeds the loss of the uniform table, (c) the gap does not fall below 1e-3*(L_uniform - L + 1) at the largest budget (convergence test)')
 
@@ -36,7 +36,9 @@ def table_matrices(prob, sizes, attrs):
 def run(res, drv, tier, seed):
     r = rng(seed, 'C03')
     n = 9 if tier == 'quick' else 60
-    budgets = [250, 1000, 4000] if tier == 'quick' else [250, 1000, 4000, 16000]
+    # "given enough iterations": the budget is escalated (x4) until the certificate is small; the last two steps are only reached by the
+    # slowly converging cases (RDA is O(1/t))
+    budgets = [250, 1000, 4000, 16000, 64000] if tier == 'quick' else [250, 1000, 4000, 16000, 64000, 256000]
     for ci in range(n):
         if ci < 3:
             # measurement cycles of length 5 (6 in the thorough tier): the junction tree needs fill-in edges that depend on earlier fill-in
@@ -90,7 +92,11 @@ def run(res, drv, tier, seed):
             res.violation('failing-input', f'{engine}: the loss computed from the model\'s own answers ({la:.8g}) is below the certified lower bound on the optimum ({lp - gap:.8g}): the answers do not come from one table',
                           rp, key=f'optimum:below:{engine}')
         elif not close(la, lp, 1e-6, 1e-6 * scale):
-            res.violation('failing-input', f'{engine}: loss from project() answers {la:.8g} differs from the loss of the materialised table {lp:.8g}', rp, key=f'optimum:incoherent:{engine}')
+            mag = max([float(np.abs(v[np.isfinite(v)]).max()) for v in (np.asarray(model.potentials[c].values) for c in model.cliques) if np.isfinite(v).any()] + [0.0])
+            diverged = mag > 1e12
+            res.violation('failing-input', f'{engine}: loss from project() answers {la:.8g} differs from the loss of the materialised table {lp:.8g}'
+                          + (f' (the parameters have diverged: max |theta| = {mag:.3g}, datavector() sums to {float(P.sum()):.6g}, model total {T:.6g})' if diverged else ''),
+                          rp, key=f'optimum:incoherent:{engine}' + (':diverged-parameters' if diverged else ''))
         elif lp > lu + 1e-9 * (abs(lu) + 1):
             res.violation('failing-input', f'{engine}: returned model fits worse ({lp:.8g}) than the uniform table with the same total ({lu:.8g})', rp, key=f'optimum:worse-than-uniform:{engine}')
         elif gap > 1e-3 * (lu - lp + 1):
